@@ -205,14 +205,17 @@ pub fn run_c07(cfg: &Cfg, rep: &mut Report) {
                             evs.push(Ev::cc(c, n + 32, 99));
                             evs.push(Ev::cc(c, n, (v >> 7) as u8));
                             evs.push(Ev::cc(c, n + 32, (v & 127) as u8));
-                            let mut outs = vec![];
-                            let ok = api("ControlChange14BitMessageScanner::feed", || {
-                                for e in &evs {
-                                    if let Ev::Msg(s, a, b) = e {
-                                        outs.push(sc.feed(&raw(*s, *a, *b)).as_ref().map(c14m));
+                            let mut outs: Vec<Option<C14M>> = Vec::with_capacity(4);
+                            let mut ok = Some(());
+                            for e in &evs {
+                                if let Ev::Msg(s, a, b) = e {
+                                    let m = raw(*s, *a, *b);
+                                    match api("ControlChange14BitMessageScanner::feed", || sc.feed(&m)) {
+                                        Some(o) => outs.push(o.as_ref().map(c14m)),
+                                        None => ok = None,
                                     }
                                 }
-                            });
+                            }
                             cases += 1;
                             let k = outs.len();
                             let want = Some(C14M { ch: c, msb_cn: n, value: v });
@@ -285,7 +288,7 @@ pub fn run_c08(cfg: &Cfg, rep: &mut Report) {
     }
     rep.set_exhaustive(false);
     // seeded random histories, 16 channels, full alphabet
-    let total = cfg.size(2_000, 400_000, 20_000_000);
+    let total = cfg.size(2_000, 4_000_000, 200_000_000);
     par(cfg, rep, |shard, nsh, rep| {
         let mut rng = Rng::derive(cfg.seed, 0xC08_00 + shard as u64);
         let per = total / nsh as u64;
